@@ -540,7 +540,7 @@ theorem swOk_spelled_out {top : Top} (h : SwOk top) : top.fail = none ∧ ∃ l 
 /-- The state every history starts from satisfies it. -/
 example : SwOk ({} : Top) := swOk_init
 
-/-- Non-vacuity: the two histories of the known finding `sigwinch_stale_next` (and a third observer leaving) are
+/-- Non-vacuity: the two histories of the repaired defect `sigwinch_stale_next` (and a third observer leaving) are
     histories of this kind, and in the repaired configuration they run to the end. -/
 example : ∀ op ∈ [XOp.xnew, .xnew, .xobs 0 true, .xobs 1 true, .xobs 0 false, .xunref 1, .xobs 0 true, .winch,
     .tobs true, .tobs false, .tobs true, .winch, .xref 0, .xunref 0, .xunref 0, .winch], op.isSw = true := by
@@ -553,7 +553,7 @@ example : (match xrunOps extractedTop {} [.xnew, .xnew, .xobs 0 true, .xobs 1 tr
     = (none, some 0, #[none, none, none], true) := by decide +kernel
 
 /-- `tickit_term_set_input_fd` on a terminal that has its TermKey: the unrepaired code uses the TermKey it has
-    destroyed (known finding `set_input_fd_termkey`), whatever the state. -/
+    destroyed (the defect repaired by f040fc7 in /repo), whatever the state. -/
 theorem set_input_fd_uses_destroyed_termkey (tc : TCfg) (top : Top) (h : tc.setInputFdClearsTermkey = false)
     (ht : heldT top.st = true) (hf : top.hasFd = true) :
     ∃ what, xstepCore tc top .tsetin = .ub .mem what := by
@@ -561,7 +561,7 @@ theorem set_input_fd_uses_destroyed_termkey (tc : TCfg) (top : Top) (h : tc.setI
   unfold xstepCore
   simp [ht, hf, h]
 
-/-- With fixes/C08_set_input_fd_termkey.patch the call succeeds, whatever the state. -/
+/-- After the repair (the pointer is cleared) the call succeeds, whatever the state. -/
 theorem set_input_fd_repaired (tc : TCfg) (top : Top) (h : tc.setInputFdClearsTermkey = true) :
     ∃ t r, xstepCore tc top .tsetin = .ok (t, r) := by
   unfold xstepCore
